@@ -1,0 +1,13 @@
+//go:build verif
+
+package shard
+
+import "github.com/nspcc-dev/neofs-node/pkg/local_object_storage/writecache"
+
+// VerifWriteCache returns the write-cache instance of the shard (nil if disabled).
+func (s *Shard) VerifWriteCache() writecache.Cache {
+	if !s.hasWriteCache() {
+		return nil
+	}
+	return s.writeCache
+}
